@@ -81,10 +81,15 @@ def field_text(kind, v):
     raise ValueError(kind)
 
 
+MIN_NORMAL = 2.2250738585072014e-308        # smallest normal double; below it doubles lose relative precision
+
+
 def float_close(a, b):
+    """equal to printing precision: 1e-9 relative; for magnitudes below the smallest normal double (where the
+    spacing of doubles is absolute, 5e-324) the tolerance stays that of the smallest normal"""
     if a == b:
         return True
-    return math.isfinite(a) and math.isfinite(b) and abs(a - b) <= 1e-9 * max(abs(a), abs(b))
+    return math.isfinite(a) and math.isfinite(b) and abs(a - b) <= 1e-9 * max(abs(a), abs(b), MIN_NORMAL)
 
 
 def wrap(seq, width):
